@@ -10,7 +10,7 @@
     style attributes, tuples, arrays, Either, EitherOf3, Option, Vec, AnyView type changes.
     All theorems are for arbitrary sibling contexts, nesting depth and histories. *)
 From Coq Require Import List NArith.
-From LV Require Import Dom.Dom Dom.View Dom.ViewProofs Dom.ViewTop.
+From LV Require Import Base.Sexp Dom.Dom Dom.View Dom.ViewProofs Dom.ViewTop Dom.ViewRun Dom.ViewSer.
 Import ListNotations.
 
 (** a fresh render (build + mount between the siblings) shows [cv v] *)
@@ -59,6 +59,15 @@ Theorem C03_retained_nodes_kept :
     end.
 Proof. exact retained_nodes_kept. Qed.
 Print Assumptions C03_retained_nodes_kept.
+
+(** the link to what is compared with the implementation: the nodes of a state as serialised
+    by run_C03 (ViewRun.v), with the node-identity flags removed (what the oracle compares),
+    are the serialisation of the content [cs] the theorems above speak about *)
+Theorem C03_serialisation_is_cs :
+  forall (old : list N) (s : st) (n : N), good n s -> NoDup (ids s) ->
+    map strip (map (fun k => lookup_sexp k (node_sexps old s)) (ids s)) = map ser_t (cs s).
+Proof. exact serialisation_is_cs. Qed.
+Print Assumptions C03_serialisation_is_cs.
 
 (** the general statement is refuted on the code as it is — F-C03-a: replacing an empty
     StaticVec loses the new content (the parent stays empty) *)
